@@ -252,6 +252,43 @@ fn run_suite<S: ShortGroupSignatureScheme>(em: &mut Emitter, base: &mut Rng, sui
                 }
             }
         }
+        // D0: a request that blinds nothing (the issuer supplies every claim): honest flow, then the commitment shifted by
+        // δ·(generator of a claim the issuer supplies) — after unblinding that claim would be signed with δ added
+        {
+            let empty: BTreeMap<String, ClaimData> = BTreeMap::new();
+            let (_, mut kall) = split_claims(&all, &labels, &[]);
+            fresh_id(&mut kall, "d0");
+            em.oracle_case(&format!("{} nothing-blinded {}", suite, k));
+            if let Out::Ok((req0, blinder0)) = call(|| BlindCredentialRequest::<S>::new(&public, &empty)) {
+                let honest = call(|| {
+                    let bb = issuer.blind_sign_credential(&req0, &kall)?;
+                    bb.to_unblinded(&empty, blinder0)
+                });
+                em.count(&format!("nothing-blinded:honest-{}", honest.class()));
+                let pkv = serde_json::to_value(&public.verifying_key).unwrap_or_default();
+                let v0 = serde_json::to_value(&req0).unwrap();
+                for field in ["y_blinds", "y"] {
+                    let gens: Vec<G1Projective> = pkv[field].as_array().map(|a| a.iter().filter_map(|h| h.as_str().and_then(g1_of_hex)).collect()).unwrap_or_default();
+                    if gens.len() < labels.len() {
+                        continue;
+                    }
+                    for ki in [1usize, labels.len() - 1] {
+                        let mut v2 = v0.clone();
+                        let c0 = v2["blind_signature_context"]["commitment"].as_str().and_then(g1_of_hex);
+                        if let Some(c0) = c0 {
+                            v2["blind_signature_context"]["commitment"] = json!(g1_hex_c(&(c0 + gens[ki] * Scalar::from(13u64))));
+                            if let Ok(req2) = serde_json::from_str::<BlindCredentialRequest<S>>(&v2.to_string()) {
+                                let mut k2 = kall.clone();
+                                fresh_id(&mut k2, &format!("d0-{}-{}", field, ki));
+                                try_request(em, &format!("nothing-blinded-commitment-shifted-on-a-known-claim {}[{}]", field, ki), &req2, &k2, &mut issuer);
+                            }
+                        }
+                    }
+                }
+            } else {
+                em.count("nothing-blinded:request-refused");
+            }
+        }
         // D2: a label both blinded and supplied by the issuer (one known claim dropped to keep the count)
         {
             let mut kc2 = kc.clone();
